@@ -1,5 +1,11 @@
 //! Counting allocator (installed by the `check` binary): per-thread live bytes and peak, so
 //! that C18 can bound the heap used while loading a (malformed) voice file.
+//!
+//! It also OWNS THE ALIGNMENT of medium-sized buffers (16 KiB .. 1 MiB, requested alignment <= 16):
+//! they are always carved out of a 32-byte aligned block at offset 0 or 16, chosen by a per-thread
+//! switch (`set_alignment_salt`). With the switch at its default every such buffer is 32-byte
+//! aligned in every thread; C03 flips it to show that results do not depend on where the allocator
+//! happens to place a trajectory (a check that is otherwise at the mercy of the heap layout).
 
 use std::alloc::{GlobalAlloc, Layout, System};
 use std::cell::Cell;
@@ -10,6 +16,29 @@ pub struct Counting;
 thread_local! {
     static CUR: Cell<isize> = const { Cell::new(0) };
     static PEAK: Cell<isize> = const { Cell::new(0) };
+}
+
+thread_local! {
+    static SALT: Cell<usize> = const { Cell::new(0) };
+}
+
+const SALTED_MIN: usize = 16 << 10;
+const SALTED_MAX: usize = 1 << 20;
+
+#[inline]
+fn salted(l: &Layout) -> bool {
+    l.align() <= 16 && l.size() >= SALTED_MIN && l.size() <= SALTED_MAX
+}
+
+#[inline]
+fn outer(l: &Layout) -> Layout {
+    // size + 32 never overflows for the salted class
+    unsafe { Layout::from_size_align_unchecked(l.size() + 32, 32) }
+}
+
+/// 0 or 16: offset (modulo 32) of the medium-sized buffers allocated by this thread from now on.
+pub fn set_alignment_salt(offset16: bool) {
+    let _ = SALT.try_with(|s| s.set(if offset16 { 16 } else { 0 }));
 }
 
 pub static INSTALLED: AtomicBool = AtomicBool::new(false);
@@ -35,19 +64,44 @@ unsafe impl GlobalAlloc for Counting {
         if l.size() > LARGEST_REQUEST.load(Ordering::Relaxed) {
             LARGEST_REQUEST.fetch_max(l.size(), Ordering::Relaxed);
         }
-        let p = System.alloc(l);
+        let p = if salted(&l) {
+            let base = System.alloc(outer(&l));
+            if base.is_null() {
+                base
+            } else {
+                base.add(SALT.try_with(|s| s.get()).unwrap_or(0))
+            }
+        } else {
+            System.alloc(l)
+        };
         if !p.is_null() {
             add(l.size() as isize);
         }
         p
     }
     unsafe fn dealloc(&self, p: *mut u8, l: Layout) {
-        System.dealloc(p, l);
+        if salted(&l) {
+            // the block is 32-byte aligned and the offset is 0 or 16
+            let base = ((p as usize) & !31usize) as *mut u8;
+            System.dealloc(base, outer(&l));
+        } else {
+            System.dealloc(p, l);
+        }
         add(-(l.size() as isize));
     }
     unsafe fn realloc(&self, p: *mut u8, l: Layout, new: usize) -> *mut u8 {
         if new > LARGEST_REQUEST.load(Ordering::Relaxed) {
             LARGEST_REQUEST.fetch_max(new, Ordering::Relaxed);
+        }
+        let new_layout = Layout::from_size_align_unchecked(new, l.align());
+        if salted(&l) || salted(&new_layout) {
+            // moving between (or inside) the salted class: allocate, copy, free
+            let q = self.alloc(new_layout);
+            if !q.is_null() {
+                std::ptr::copy_nonoverlapping(p, q, l.size().min(new));
+                self.dealloc(p, l);
+            }
+            return q;
         }
         let q = System.realloc(p, l, new);
         if !q.is_null() {
